@@ -48,9 +48,9 @@ CHECKS["C06"]=dict(cat="model_checking", engine="histbfs", design="DESIGN.md §3
    text="Bounded-exhaustive over operation histories from 6 (quick) / 20 (thorough) initial archives (V1..V4 x listfile x attributes from the real builder, plus independently written archives with 4- and 8-slot hash tables): every sequence of <=2 operations per epoch over a 28..93-event alphabet with colliding names, other-spelling names, four content classes and five add options, chained over 2-3 epochs through deduplicated archive states. Every transition is executed on the real code (no separate model to conform).",
    note="Trusted: the reference BTreeMap; refimpl::mpqref for small-table initial archives. Judged only after close+reopen. Known findings prune their successors (count in evidence).")
 CHECKS["C08"]=dict(cat="model_checking", engine="histbfs", design="DESIGN.md §3 C08",
-   technique="explicit-state search to closure over the model chain state (ordered (archive, priority, insertion rank) lists over 4 archives x 3 priorities), every enabled event executed on a real PatchChain rebuilt by history replay and every pool name looked up against the model; plus exhaustive enumeration of COPY/BSD0 patch files from an independent encoder (well-formed and every field/payload byte altered) read through a real base+patch chain, and of stacks of 2 (thorough 3) patches / full replacements over 5 file versions incl. patches made against the wrong predecessor",
+   technique="explicit-state search to closure over the model chain state (ordered (archive, priority, insertion rank) lists over 4 archives x 3 priorities), every enabled event executed on a real PatchChain rebuilt by history replay and every pool name looked up against the model; plus exhaustive enumeration of COPY/BSD0 patch files from an independent encoder (well-formed and every field/payload byte altered) read through a real base+patch chain, and of stacks of 2 (thorough 3) patches / full replacements over 5 file versions incl. patches made against the wrong predecessor; plus stateless exploration under a controlled scheduler (loom + rayon stand-in) of from_archives_parallel / add_archives_parallel: every interleaving of the per-archive load tasks up to preemption bound 2 (thorough 3) on the real code, outcome compared with the model and required to be schedule independent",
    text="The chain state space is finite and explored to closure (10k states, 136k transitions in quick): add/remove/set_priority/clear/parallel add/parallel constructors from every reachable state, each executed on the real PatchChain and compared (read_file, contains_file, find_file_archive, list) with a stable-sorted reference list. Patch application: all control programs of <=2 triples over boundary values x 4 base files, plus every 32-bit header field x 8 boundary values and every payload byte x 2 flips; Ok results must match the declared digest.",
-   note="Trusted: refimpl::ptch (independent PTCH/BSD0/RLE encoder and reference applier), refimpl::mpqref (patch-flagged entries), MD5. Tie order after set_priority accepts both readings.")
+   note="Trusted: refimpl::ptch (independent PTCH/BSD0/RLE encoder and reference applier), refimpl::mpqref (patch-flagged entries), MD5. Tie order after set_priority accepts both readings. Parallel loading is additionally run under loom (props-sh/c08.sh, harness-sched/c08p): 3.3k cases / 0.4 M schedules in quick, 28 k cases / 187 M schedules in thorough; on real rayon a completion-order dependence shows only as a flaky result.")
 CHECKS["C09"]=dict(cat="model_checking", engine="sched", design="DESIGN.md §3 C09, §2 E3",
    technique="stateless exploration under a controlled scheduler: wow-mpq compiled against a loom-backed rayon stand-in, every interleaving of task claim/start/finish (three read-modify-write operations on shared loom atomics per task) up to preemption bound 2 (quick) / 3 (thorough), 1..3 (thorough 1..4) workers, executed on the real extraction entry points and compared with sequential reads; plus an exhaustive configuration sweep (threads x batch x list length x skip x missing position) on the real rayon",
    text="Schedules: 641 cases (10 entry points x request lists from {p,q,duplicate,missing,unreadable} in every order x skip x workers 1..3) each run under loom::model; 165k schedules in quick; every schedule's result is compared slot-by-slot with Archive::read_file and the result set per case must be a singleton. Configurations: the full 7x5x9x2x4 product on real rayon decides the configuration clause.",
